@@ -48,6 +48,9 @@ enum Op {
     MarkLlgr { src: u8 },
     DropStale { src: u8 },
     SoftResetOut,
+    /// soft_reset_out whose event the session task takes off its channel but does not handle
+    /// before the next sync: the refresh then walks a RIB that is AHEAD of the changes queued behind it
+    SoftResetOutQueued,
     RouteRefresh,
     /// toggle the global export policy (none <-> reject prefix P2) without telling anybody
     PolicySwap,
@@ -69,6 +72,7 @@ fn op_name(o: &Op) -> String {
         Op::MarkLlgr { src } => format!("llgr_period_starts({})", s(src)),
         Op::DropStale { src } => format!("stale_purge({})", s(src)),
         Op::SoftResetOut => "soft_reset_out".into(),
+        Op::SoftResetOutQueued => "soft_reset_out(handled only at the next sync)".into(),
         Op::RouteRefresh => "route_refresh(from neighbour)".into(),
         Op::PolicySwap => "export_policy_swap".into(),
         Op::ConnectHeld => "neighbour_session_established(held before its first flush)".into(),
@@ -125,6 +129,8 @@ pub(crate) struct Sys {
     tap: mpsc::UnboundedReceiver<ToPeerEvent>,
     broken: BTreeSet<String>,
     dead: bool,
+    /// the session task is parked at the event gate (a queued soft_reset_out)
+    ev_held: bool,
 }
 
 impl Drop for Sys {
@@ -132,6 +138,7 @@ impl Drop for Sys {
         // a session still held at the gate dies with the runtime; its gate entry must not
         // outlive the daemon (the key is the TableManager's address, which can be re-used)
         crate::verif::gate::forget(Arc::as_ptr(&self.d.tables) as usize, OBS);
+        crate::verif::gate::forget(Arc::as_ptr(&self.d.tables) as usize + crate::verif::gate::EVENTS, OBS);
     }
 }
 
@@ -349,6 +356,17 @@ fn attr_fp(a: &[packet::Attribute]) -> String {
 }
 
 fn apply(mirror: &mut Mirror, m: bgp::ParsedMessage) {
+    if let Some(tf) = std::env::var_os("VERIF_TRACE") {
+        use std::io::Write;
+        let mut tfh = std::fs::OpenOptions::new().create(true).append(true).open(tf).unwrap();
+        if let bgp::ParsedMessage::Update(bgp::ParsedUpdate::Routes { reach, mp_reach, unreach, mp_unreach, .. }) = &m {
+            let w: Vec<String> = unreach.iter().chain(mp_unreach.iter()).flat_map(|u| u.entries.iter().map(|e| format!("{}#{}", e.nlri, e.path_id))).collect();
+            let r: Vec<String> = reach.iter().chain(mp_reach.iter()).flat_map(|u| u.entries.iter().map(|e| format!("{}#{}", e.nlri, e.path_id))).collect();
+            let _ = writeln!(tfh, "    [trace] neighbour receives UPDATE withdraw={:?} reach={:?}", w, r);
+        } else {
+            let _ = writeln!(tfh, "    [trace] non-route message");
+        }
+    }
     if let bgp::ParsedMessage::Update(bgp::ParsedUpdate::Routes { reach, mp_reach, unreach, mp_unreach, attrs, .. }) = m {
         for u in unreach.into_iter().chain(mp_unreach) {
             for e in u.entries {
@@ -413,6 +431,7 @@ impl Model for PipeModel {
             tap,
             broken: BTreeSet::new(),
             dead,
+            ev_held: false,
         }
     }
 
@@ -431,7 +450,7 @@ impl Model for PipeModel {
             Op::MarkLlgr { .. } => "llgr_start",
             Op::DropStale { .. } => "stale_purge",
             Op::Nh { .. } => "nexthop",
-            Op::SoftResetOut => "soft_reset_out",
+            Op::SoftResetOut | Op::SoftResetOutQueued => "soft_reset_out",
             Op::RouteRefresh => "route_refresh",
             Op::PolicySwap => "policy_swap",
             Op::ConnectHeld => "session_up",
@@ -485,10 +504,45 @@ impl Model for PipeModel {
                 sys.dirty = true;
             }
             Op::SoftResetOut => {
+                // a session held at the gate after on_established handles it at the sync
+                let held = crate::verif::gate::parked(Arc::as_ptr(&sys.d.tables) as usize, OBS) || sys.ev_held;
                 if sys.conn.is_none() {
                     return false;
                 }
                 tables.soft_reset_out(OBS);
+                // handled now, against the RIB as it is now: peer events are served before the
+                // socket, so once the KEEPALIVE is counted the refresh has run
+                if !held && !sys.rt.block_on(sys.conn.as_mut().unwrap().barrier()) {
+                    sys.dead = true;
+                    out.push(("C01/observer-session-lost".into(), "soft_reset_out: the session ended".into()));
+                    return true;
+                }
+                sys.policy_pending_reset = false;
+                sys.dirty = true;
+            }
+            Op::SoftResetOutQueued => {
+                let key = Arc::as_ptr(&sys.d.tables) as usize;
+                if sys.conn.is_none() || sys.ev_held || crate::verif::gate::parked(key, OBS) {
+                    return false;
+                }
+                crate::verif::gate::arm(key + crate::verif::gate::EVENTS, OBS);
+                tables.soft_reset_out(OBS);
+                let parked = sys.rt.block_on(async {
+                    for _ in 0..20000 {
+                        if crate::verif::gate::parked(key + crate::verif::gate::EVENTS, OBS) {
+                            return true;
+                        }
+                        tokio::time::sleep(std::time::Duration::from_micros(200)).await;
+                    }
+                    false
+                });
+                if !parked {
+                    crate::verif::gate::forget(key + crate::verif::gate::EVENTS, OBS);
+                    sys.dead = true;
+                    machinery("C01: the session task did not reach the event gate".into());
+                    return false;
+                }
+                sys.ev_held = true;
                 sys.policy_pending_reset = false;
                 sys.dirty = true;
             }
@@ -503,6 +557,12 @@ impl Model for PipeModel {
                     machinery("C01: could not send ROUTE-REFRESH".into());
                     return false;
                 }
+                // handled now (the KEEPALIVE behind it has been counted), not at some point during the following ops
+                if !sys.ev_held && !sys.rt.block_on(conn.barrier()) {
+                    sys.dead = true;
+                    out.push(("C01/observer-session-lost".into(), "ROUTE-REFRESH: the session ended".into()));
+                    return true;
+                }
                 sys.policy_pending_reset = false;
                 sys.dirty = true;
             }
@@ -513,6 +573,8 @@ impl Model for PipeModel {
                 sys.dirty = false;
                 // a held session resumes: what has queued up is delivered before its first flush
                 crate::verif::gate::release(Arc::as_ptr(&sys.d.tables) as usize, OBS);
+                crate::verif::gate::release(Arc::as_ptr(&sys.d.tables) as usize + crate::verif::gate::EVENTS, OBS);
+                sys.ev_held = false;
                 let mut cur: Vec<(String, String)> = Vec::new();
                 let conn = sys.conn.as_mut().unwrap();
                 let mut mirror = std::mem::take(&mut sys.mirror);
@@ -653,7 +715,10 @@ impl Model for PipeModel {
             }
         }
         if !matches!(o, Op::Sync) && sys.conn.is_some() {
-            if matches!(o, Op::SoftResetOut | Op::RouteRefresh | Op::ConnectHeld | Op::PolicySwap) {
+            if matches!(o, Op::SoftResetOut | Op::SoftResetOutQueued | Op::RouteRefresh | Op::ConnectHeld | Op::PolicySwap) {
+                if matches!(o, Op::SoftResetOutQueued) {
+                    sys.unsynced.push("held".to_string());
+                }
                 sys.unsynced.push(kind.to_string());
             }
             sys.unsynced.extend(produced);
@@ -674,7 +739,7 @@ impl Model for PipeModel {
         let mut loc: Vec<String> = sys.d.tables.collect_loc_rib_paths(F).iter().map(|c| format!("{}#{}:{:?}", c.net, c.dest_id, c.current_paths.iter().map(|p| (p.local_path_id, p.source.remote_addr, p.nexthop.map(|n| n.addr()))).collect::<Vec<_>>())).collect();
         loc.sort();
         // what is queued for the observer is determined by the ops since the last sync: keep them distinct
-        format!("{:?}|{:?}|{:?}|{:?}|{:?}|{}|{}|{:?}|{}|{:?}|{:?}", rib, loc, sys.mirror, sys.st.src_epoch, sys.st.nh_down, sys.st.policy_on, sys.dirty, sys.broken, sys.dead, sys.st.src_down, (sys.policy_pending_reset, sys.conn.is_some(), crate::verif::gate::parked(Arc::as_ptr(&sys.d.tables) as usize, OBS), &sys.unsynced)).into_bytes()
+        format!("{:?}|{:?}|{:?}|{:?}|{:?}|{}|{}|{:?}|{}|{:?}|{:?}", rib, loc, sys.mirror, sys.st.src_epoch, sys.st.nh_down, sys.st.policy_on, sys.dirty, sys.broken, sys.dead, sys.st.src_down, (sys.policy_pending_reset, sys.conn.is_some(), crate::verif::gate::parked(Arc::as_ptr(&sys.d.tables) as usize, OBS), sys.ev_held, &sys.unsynced)).into_bytes()
     }
 
     fn observe(&self, sys: &Sys) -> u64 {
@@ -788,8 +853,25 @@ fn models(thorough: bool) -> Vec<PipeModel> {
             ops.push(Op::DropStale { src: 0 });
             ops.push(Op::PolicySwap);
         }
-        ops.push(Op::SoftResetOut);
-        ops.push(Op::RouteRefresh);
+        // a refresh that runs AHEAD of the changes queued behind it: a prefix leaves the RIB and its
+        // destination id is re-issued to a prefix this neighbour may not be sent (split horizon, its own route)
+        if pack == "ahead" {
+            ops.clear();
+            ops.push(Op::Announce { src: 0, pfx: 1, attr: 1, nh: 0 });
+            ops.push(Op::Announce { src: 1, pfx: 0, attr: 1, nh: 1 });
+            ops.push(Op::Withdraw { src: 0, pfx: 1 });
+            ops.push(Op::PeerDown { src: 0 });
+            ops.push(Op::PeerDownStale { src: 0 });
+            ops.push(Op::DropStale { src: 0 });
+            ops.push(Op::Announce { src: 3, pfx: 0, attr: 0, nh: 0 });
+            ops.push(Op::SoftResetOutQueued);
+        } else {
+            ops.push(Op::SoftResetOut);
+            ops.push(Op::RouteRefresh);
+        }
+        if thorough && matches!(pack, "gr" | "idreuse") {
+            ops.push(Op::SoftResetOutQueued);
+        }
         ops.push(Op::Sync);
         PipeModel { name: name.into(), role, send_max, shards, ops, nets, policy_sets_med: pack == "gr", late: pack == "late" }
     };
@@ -802,6 +884,7 @@ fn models(thorough: bool) -> Vec<PipeModel> {
         mk("c01-ebgp-addpath2-policy", ObsRole::Ebgp, 2, 1, "appol"),
         mk("c01-ebgp-late", ObsRole::Ebgp, 1, 1, "late"),
         mk("c01-ibgp-addpath2-late", ObsRole::Ibgp, 2, 1, "late"),
+        mk("c01-ibgp-refresh-ahead", ObsRole::Ibgp, 1, 1, "ahead"),
     ];
     if thorough {
         v.push(mk("c01-ebgp-addpath2", ObsRole::Ebgp, 2, 1, "multi"));
@@ -812,6 +895,8 @@ fn models(thorough: bool) -> Vec<PipeModel> {
         v.push(mk("c01-ebgp-multi", ObsRole::Ebgp, 1, 2, "multi"));
         v.push(mk("c01-ibgp-addpath2", ObsRole::Ibgp, 2, 2, "multi"));
         v.push(mk("c01-addpath-idreuse", ObsRole::Ebgp, 2, 2, "idreuse"));
+        v.push(mk("c01-ibgp-addpath2-refresh-ahead", ObsRole::Ibgp, 2, 1, "ahead"));
+        v.push(mk("c01-ebgp-refresh-ahead", ObsRole::Ebgp, 1, 1, "ahead"));
     }
     v
 }
